@@ -609,7 +609,7 @@ Qed.
 Lemma srel_room_request xs h k q : srel xs h (fst (room_request h k q)).
 Proof.
   unfold room_request. destruct (room_of h k) as [r|]; [|apply srel_refl].
-  destruct q as [|users rs|tag|l|l|ic|tag].
+  destruct q as [|users rs|tag|l|l|ic|tag|ok]; [| | | | | | |apply srel_refl].
   - match goal with |- context [fold_sessions h ?int ?f] => destruct (fold_sessions h int f) as [h0 o0] eqn:H0 end.
     assert (R0 : srel xs h h0).
     { rewrite (fst_eq _ _ _ H0). apply srel_fold_sessions; [apply srel_refl|]. intros. apply srel_send_session. }
@@ -689,7 +689,7 @@ Qed.
 
 Lemma srel_do_api xs h b room q : srel xs h (fst (do_api h b room q)).
 Proof.
-  unfold do_api. destruct q as [|users rs|tag|l|l|ic|tag]; cbn [fst]; try srel_ns.
+  unfold do_api. destruct q as [|users rs|tag|l|l|ic|tag|ok]; cbn [fst]; try srel_ns.
   - apply srel_fold_left.
     + apply srel_fold_left; [apply srel_refl|]. intros. srel_ns.
     + intros hh x. destruct (aget (h_rs2 hh) (1000000 + x)); [srel_ns|apply srel_refl].
@@ -697,6 +697,10 @@ Proof.
     speel. apply srel_fold_left; [apply srel_refl|].
     intros hh [[i icv] pm]. destruct i; try apply srel_refl. destruct pm; [srel_ns|apply srel_refl].
   - match goal with |- context [match ?o with [] => _ | _ => _ end] => destruct o end; cbn [fst]; [apply srel_refl|srel_ns].
+  - (* dial-out *)
+    destruct ok; cbn [negb fst]; [|apply srel_refl]. destruct (dialout_session h b) as [sid|]; [|apply srel_refl].
+    destruct (send_session h sid (SDialout room)) as [h1 o1] eqn:H1. cbn [fst].
+    apply srel_trans with h1; [rewrite (fst_eq _ _ _ H1); apply srel_send_session|srel_ns].
 Qed.
 
 Lemma srel_do_tick xs h secs : srel xs h (fst (do_tick h secs)).
